@@ -102,21 +102,30 @@ void MEDDLY::binary_operation::compute(const dd_edge &ar1,
         throw error(error::INVALID_OPERATION, __FILE__, __LINE__);
     }
 #ifdef ALLOW_OLD_BINARY_0_17_6
+    //
+    // res may be one of the operands (x += y): pass copies of the operand
+    // edge values, because the result edge value is written while the
+    // operand edge values are still needed.
+    //
+    const edge_value av = ar1.getEdgeValue();
+    const edge_value bv = ar2.getEdgeValue();
     if (new_style) {
         node_handle resp;
         compute(resF->getMaxLevelIndex(), ~0,
-                ar1.getEdgeValue(), ar1.getNode(),
-                ar2.getEdgeValue(), ar2.getNode(),
+                av, ar1.getNode(),
+                bv, ar2.getNode(),
                 res.setEdgeValue(), resp);
         res.set(resp);
     } else {
         computeDDEdge(ar1, ar2, res, true);
    }
 #else
+    const edge_value av = ar1.getEdgeValue();
+    const edge_value bv = ar2.getEdgeValue();
     node_handle resp;
     compute(resF->getMaxLevelIndex(), ~0,
-            ar1.getEdgeValue(), ar1.getNode(),
-            ar2.getEdgeValue(), ar2.getNode(),
+            av, ar1.getNode(),
+            bv, ar2.getNode(),
             res.setEdgeValue(), resp);
     res.set(resp);
 #endif
@@ -139,9 +148,12 @@ void MEDDLY::binary_operation::computeTemp(const dd_edge &ar1,
         int toplevel = arg1F->isForRelations()
             ?  MXD_levels::topUnprimed(ar1.getLevel(), ar2.getLevel())
             :  MDD_levels::topLevel(ar1.getLevel(), ar2.getLevel());
+        // (res may be one of the operands, see compute())
+        const edge_value av = ar1.getEdgeValue();
+        const edge_value bv = ar2.getEdgeValue();
         compute(toplevel, ~0,
-                ar1.getEdgeValue(), ar1.getNode(),
-                ar2.getEdgeValue(), ar2.getNode(),
+                av, ar1.getNode(),
+                bv, ar2.getNode(),
                 res.setEdgeValue(), resp);
         res.set(resp);
     } else {
